@@ -1,7 +1,9 @@
 import Aiorpcx.C01.Ids
 /-! C02 — model of the serving side's reply bookkeeping in `JSONRPCConnection`
-    (aiorpcx/jsonrpc.py: `_receive_request_batch` with its `item_send_result` closure,
-    `_send_result`, `_oversized_response_message`, the request branch of `receive_message`).
+    (aiorpcx/jsonrpc.py: `_receive_request_batch` with its `item_send_result` closure and the
+    `partial(item_send_result, request_id)` binding, `_send_result`,
+    `_oversized_response_message`, the request branch of `receive_message`) and of the
+    send-once discipline of `RPCSession._throttled_request` (aiorpcx/session.py).
     No Mathlib imports: the driver links this.
 
     `R` is the type of handler results (opaque).  Encoded lengths are a parameter `encLen`
@@ -11,7 +13,7 @@ namespace Aiorpcx.C02
 open Aiorpcx.C01 (Id)
 
 
-/-- one member of a received batch, after `_process_request` -/
+/-- one member of a received batch (or a single message), after `_process_request` -/
 inductive Mem where
   /-- a valid request (id admitted by the protocol and not `None`) -/
   | req (id : Id)
@@ -41,6 +43,21 @@ def Entry.isReal {R : Type} : Entry R → Bool
   | .res _ _ _ => true
   | _ => false
 
+/-- what the connection hands to the session for one valid member.  A `Request` carries a
+    `send_result` that is `partial(<closure>, bound)`: the id it answers under is fixed *here*,
+    when the item is created - the caller of `send_result` supplies only the result. -/
+inductive Item where
+  | request (member : Nat) (bound : Id)
+  | notification (member : Nat)
+  deriving DecidableEq, Repr
+
+/-- the id `send_result` of member `k` is bound to (`none`: no such item, or a `Notification`,
+    which has no `send_result`) -/
+def boundId : List Item → Nat → Option Id
+  | [], _ => none
+  | .request m id :: its, k => if k = m then some id else boundId its k
+  | .notification _ :: its, k => boundId its k
+
 /-- the closure variables of `_receive_request_batch` -/
 structure ReqBatch (R : Type) where
   parts : List (Entry R)
@@ -49,19 +66,21 @@ structure ReqBatch (R : Type) where
   deriving DecidableEq, Repr
 
 /-- the loop of `_receive_request_batch` from member index `i` on:
-    returns (items with their member index, error parts, count) -/
-def scan {R : Type} : Nat → List Mem → List (Nat × Mem) × List (Entry R) × Nat
+    returns (items, error parts, count).  The `.req` branch is
+    `item.send_result = partial(item_send_result, request_id)`: the item of member `i` is bound
+    to member `i`'s id. -/
+def scan {R : Type} : Nat → List Mem → List Item × List (Entry R) × Nat
   | _, [] => ([], [], 0)
   | i, m :: ms =>
       let r := scan (i + 1) ms
       match m with
-      | .req _ => ((i, m) :: r.1, r.2.1, r.2.2 + 1)
-      | .notif => ((i, m) :: r.1, r.2.1, r.2.2)
+      | .req id => (.request i id :: r.1, r.2.1, r.2.2 + 1)
+      | .notif => (.notification i :: r.1, r.2.1, r.2.2)
       | .invalid id => (r.1, .err i id :: r.2.1, r.2.2 + 1)
 
 inductive RecvResult (R : Type) where
   /-- the items handed to the session (requests carry a `send_result` bound to the batch) -/
-  | items (its : List (Nat × Mem)) (b : ReqBatch R)
+  | items (its : List Item) (b : ReqBatch R)
   /-- `ProtocolError` whose `error_message` is the batch of these entries -/
   | errorBatch (es : List (Entry R))
   deriving DecidableEq, Repr
@@ -80,34 +99,122 @@ def sendResult {R : Type} (max inc : Nat) (encLen : Id → R → Nat) (b : ReqBa
   let parts := b.parts ++ [part]
   (⟨parts, b.count, size⟩, if parts.length == b.count then some parts else none)
 
-/-- a completion order: member index, the id its `send_result` is bound to, the result -/
-abbrev Call (R : Type) := Nat × Id × R
+/-- one delivery: the member whose handler finished, and its result.  No id: the id is the one
+    the item's `send_result` was bound to. -/
+abbrev Call (R : Type) := Nat × R
 
-def runCalls {R : Type} (max inc : Nat) (encLen : Id → R → Nat) :
+/-- the handlers call `send_result` of their items in the order `calls`; a member that has no
+    `send_result` (a notification, or no such member) is never called by the session -/
+def runCalls {R : Type} (max inc : Nat) (encLen : Id → R → Nat) (its : List Item) :
     ReqBatch R → List (Call R) → List (Option (List (Entry R)))
   | _, [] => []
   | b, c :: cs =>
-      let r := sendResult max inc encLen b c.1 c.2.1 c.2.2
-      r.2 :: runCalls max inc encLen r.1 cs
+      match boundId its c.1 with
+      | some id =>
+          let r := sendResult max inc encLen b c.1 id c.2
+          r.2 :: runCalls max inc encLen its r.1 cs
+      | none => none :: runCalls max inc encLen its b cs
 
 /-- every batch message that leaves the connection for one received batch, given the order in
-    which the handlers call `send_result` (the session sends a non-`None` return value, and the
-    `error_message` of a raised `ProtocolError`) -/
+    which the handlers deliver (the session sends a non-`None` return value of `send_result`,
+    and the `error_message` of a raised `ProtocolError`) -/
 def replies {R : Type} (max inc : Nat) (encLen : Id → R → Nat) (ms : List Mem)
     (calls : List (Call R)) : List (List (Entry R)) :=
   match receiveBatch (R := R) ms with
   | .errorBatch es => [es]
-  | .items _ b => (runCalls max inc encLen b calls).filterMap id
+  | .items its b => (runCalls max inc encLen its b calls).filterMap id
+
+/-! ### `receive_message` on a list: request batch or response batch?
+
+    `all(isinstance(payload, dict) and ('result' in payload or 'error' in payload) ...)`:
+    only a list **all** of whose members look like responses goes to `_receive_response_batch`;
+    everything else - in particular a list mixing response-looking members with requests - is a
+    request batch, whose response-looking members are then invalid members or (if they also
+    carry a method) requests. -/
+
+/-- `respLike l[k]` = member `k` is an object carrying "result" or "error" -/
+def isRequestBatch (respLike : List Bool) : Bool := !(respLike.all id)
+
+/-! ### several batches in flight on one connection
+
+    Each call of `_receive_request_batch` creates its own closure variables, so a connection
+    that has received several request batches holds one `(items, ReqBatch)` per batch; a delivery
+    names the batch whose item's `send_result` is called. -/
+
+def runMulti {R : Type} (max inc : Nat) (encLen : Id → R → Nat) :
+    List (List Item × ReqBatch R) → List (Nat × Call R) → List (Nat × Option (List (Entry R)))
+  | _, [] => []
+  | bs, d :: ds =>
+      match bs[d.1]? with
+      | none => (d.1, none) :: runMulti max inc encLen bs ds
+      | some ib =>
+          match boundId ib.1 d.2.1 with
+          | none => (d.1, none) :: runMulti max inc encLen bs ds
+          | some id =>
+              let r := sendResult max inc encLen ib.2 d.2.1 id d.2.2
+              (d.1, r.2) :: runMulti max inc encLen (bs.set d.1 (ib.1, r.1)) ds
+
+/-! ### a late-binding closure (NOT what the code does; kept to show the theorems exclude it) -/
+
+/-- the id the loop variable `request_id` holds when the loop of `_receive_request_batch` is
+    over: that of the last valid member (`None` for a notification) -/
+def lastLoopId : List Mem → Id → Id
+  | [], d => d
+  | .req id :: ms, _ => lastLoopId ms id
+  | .notif :: ms, _ => lastLoopId ms .null
+  | .invalid _ :: ms, d => lastLoopId ms d
+
+/-- a closure `lambda result: item_send_result(request_id, result)` instead of the `partial`:
+    every item answers under the id of the last valid member -/
+def lateBind (last : Id) : List Item → List Item
+  | [] => []
+  | .request m _ :: its => .request m last :: lateBind last its
+  | .notification m :: its => .notification m :: lateBind last its
+
+def repliesLate {R : Type} (max inc : Nat) (encLen : Id → R → Nat) (ms : List Mem)
+    (calls : List (Call R)) : List (List (Entry R)) :=
+  match receiveBatch (R := R) ms with
+  | .errorBatch es => [es]
+  | .items its b => (runCalls max inc encLen (lateBind (lastLoopId ms .null) its) b calls).filterMap id
+
+/-! ### single messages -/
+
+/-- `receive_message` on a single request-side message -/
+inductive SingleRecv where
+  /-- `[item]`; a Request got `send_result = partial(self._send_result, request_id)` -/
+  | item (it : Item)
+  /-- `ProtocolError` whose `error_message` is an error response under the recovered id -/
+  | errorReply (id : Id)
+  deriving DecidableEq, Repr
+
+def receiveSingle : Mem → SingleRecv
+  | .req id => .item (.request 0 id)
+  | .notif => .item (.notification 0)
+  | .invalid id => .errorReply id
 
 /-- `_send_result(request_id, result)`: the reply to a single request -/
 def sendResultSingle {R : Type} (max : Nat) (encLen : Id → R → Nat) (id : Id) (r : R) : Entry R :=
   if encLen id r > max && max > 0 then .big 0 id else .res 0 id r
+
+/-- every message that leaves the connection for one single message, when the handler of the
+    item (if it is a request) delivers `r` -/
+def repliesSingle {R : Type} (max : Nat) (encLen : Id → R → Nat) (m : Mem) (r : R) :
+    List (Entry R) :=
+  match receiveSingle m with
+  | .errorReply id => [.err 0 id]
+  | .item (.request _ id) => [sendResultSingle max encLen id r]
+  | .item (.notification _) => []
+
+/-! ### specification-side views of a composition -/
 
 /-- the request members of a composition, with their member index: (index, id) -/
 def reqMembers : Nat → List Mem → List (Nat × Id)
   | _, [] => []
   | i, .req id :: ms => (i, id) :: reqMembers (i + 1) ms
   | i, _ :: ms => reqMembers (i + 1) ms
+
+/-- the member indices of the request members -/
+def reqIdx (ms : List Mem) : List Nat := (reqMembers 0 ms).map (·.1)
 
 /-- the error entries a composition calls for, in member order -/
 def errEntries {R : Type} : Nat → List Mem → List (Entry R)
@@ -119,5 +226,81 @@ def notifCount : List Mem → Nat
   | [] => 0
   | .notif :: ms => notifCount ms + 1
   | _ :: ms => notifCount ms
+
+/-! ### `RPCSession._throttled_request`: one task per item, as a labelled transition system
+
+    Environment events: the handler returns / raises an `RPCError` (`ret`), the processing
+    timeout fires (`timeout`), the transport accepts the parked write (`written`).  The only
+    thing C02 needs from this function is its *send-once discipline*: `request.send_result` is
+    called exactly once per Request - with the handler's result if the handler finished before
+    the timeout, with the SERVER_BUSY error otherwise - and what it returns is written once;
+    nothing that happens while the write is parked leads back to `send_result`. -/
+
+/-- what `send_result` is called with -/
+inductive Res (R : Type) where
+  | value (r : R)
+  | busy
+  deriving DecidableEq, Repr
+
+inductive Ev (R : Type) where
+  | ret (r : R)
+  | timeout
+  | written
+  deriving DecidableEq, Repr
+
+inductive TState (R : Type) where
+  /-- inside `async with timeout_after(processing_timeout)`, awaiting `handle_request` -/
+  | handling
+  /-- `send_result(res)` was called and returned a message; `_send_message` is awaiting the
+      transport (possibly parked on a full send buffer) -/
+  | writing (res : Res R)
+  /-- the task is over; `res` = what `send_result` was called with (`none` for a Notification) -/
+  | done (res : Option (Res R))
+  deriving DecidableEq, Repr
+
+/-- observable actions of the task -/
+inductive Act (R : Type) where
+  | sendResult (res : Res R)
+  | wrote (res : Res R)
+  deriving DecidableEq, Repr
+
+/-- `returnsMsg`: does `send_result` return a message (always for a single request; for a batch
+    member only for the one completing the batch)?  `isReq`: `isinstance(request, Request)`.
+    The timeout scope is left before `send_result` is called, so a `timeout` event in state
+    `writing` cannot occur in the code; the model makes it a no-op (the timer was cancelled). -/
+def tstep {R : Type} (isReq returnsMsg : Bool) : TState R → Ev R → TState R × List (Act R)
+  | .handling, .ret r =>
+      if !isReq then (.done none, [])
+      else if returnsMsg then (.writing (.value r), [.sendResult (.value r)])
+      else (.done (some (.value r)), [.sendResult (.value r)])
+  | .handling, .timeout =>
+      if !isReq then (.done none, [])
+      else if returnsMsg then (.writing .busy, [.sendResult .busy])
+      else (.done (some .busy), [.sendResult .busy])
+  | .handling, .written => (.handling, [])
+  | .writing res, .written => (.done (some res), [.wrote res])
+  | .writing res, _ => (.writing res, [])
+  | .done res, _ => (.done res, [])
+
+def trun {R : Type} (isReq returnsMsg : Bool) : TState R → List (Ev R) → TState R × List (Act R)
+  | s, [] => (s, [])
+  | s, e :: es =>
+      let r := tstep isReq returnsMsg s e
+      let r' := trun isReq returnsMsg r.1 es
+      (r'.1, r.2 ++ r'.2)
+
+/-- the seeded variant (NOT the code): the response is sent *inside* the timeout scope, so the
+    timeout can fire while the write is parked; the handler for it calls `send_result` again -/
+def tstepInScope {R : Type} (isReq returnsMsg : Bool) : TState R → Ev R → TState R × List (Act R)
+  | .writing _, .timeout => (.writing .busy, [.sendResult .busy])
+  | s, e => tstep isReq returnsMsg s e
+
+def trunInScope {R : Type} (isReq returnsMsg : Bool) :
+    TState R → List (Ev R) → TState R × List (Act R)
+  | s, [] => (s, [])
+  | s, e :: es =>
+      let r := tstepInScope isReq returnsMsg s e
+      let r' := trunInScope isReq returnsMsg r.1 es
+      (r'.1, r.2 ++ r'.2)
 
 end Aiorpcx.C02
